@@ -1,6 +1,7 @@
 import ast
 import keyword
 import re
+import unicodedata
 from collections.abc import MutableMapping
 from typing import Union
 
@@ -66,6 +67,11 @@ def sanitize_variable_names(
             else:
                 next(expr_parts)
                 new_name = sanitize_variable_name(variable_name, env, template=template)
+                while aliases.get(new_name, variable_name) != variable_name:
+                    # Distinct names must never share a sanitized alias.
+                    new_name += "_"
+                    if variable_name in env:
+                        env[new_name] = env[variable_name]
                 aliases[new_name] = variable_name
                 sanitized_expr.append(f" {new_name} ")
         else:
@@ -92,7 +98,14 @@ def sanitize_variable_name(
         return name
 
     # Compute recognisable basename
-    base_name = "".join([char if re.match(r"\w", char) else "_" for char in name])
+    # Python normalises identifiers (NFKC) and accepts fewer characters than
+    # the regex class `\w`, so test each character against Python's own rules.
+    base_name = "".join(
+        [
+            char if ("_" + char).isidentifier() else "_"
+            for char in unicodedata.normalize("NFKC", name)
+        ]
+    )
     if not base_name or base_name[0].isdigit():
         base_name = "_" + base_name
 
